@@ -59,18 +59,25 @@ theorem txInv_started (cfg : Cfg) (h1 : 0 < cfg.segInit) (h2 : cfg.privExt = fal
       ⟨0, by simp [Ep.txView, sendContact, sendMessage, kaReset, idleReset], by simp,
         by simp [Ep.txView, sendContact, sendMessage, kaReset, idleReset], fun _ _ => rfl⟩,
       by intro it s h; simp [Ep.txView, sendContact, sendMessage, kaReset, idleReset] at h,
-      by simp [Ep.txView, sendContact, sendMessage, kaReset, idleReset], ?_, ?_⟩
+      by simp [Ep.txView, sendContact, sendMessage, kaReset, idleReset], ?_, ?_, ?_⟩
     · simp [Ep.txView, sendContact, sendMessage, kaReset, idleReset, legalRun, legalStep, phaseOf, curL]
     · simp [Ep.txView, sendContact, sendMessage, kaReset, idleReset, rxSpec, rxSpecStep, curD, doneD]
+    · refine ⟨fun p hp => by simp [Ep.txView, sendContact, sendMessage, kaReset, idleReset] at hp, fun _ => ⟨rfl, ?_⟩, fun _ => rfl⟩
+      intro m hm
+      simp [Ep.txView, sendContact, sendMessage, kaReset, idleReset] at hm
+      subst hm; rfl
   · simp only [Bool.not_true, Bool.false_eq_true, if_false]
     refine ⟨rfl, rfl, h1, h2, by simp [Ep.txView, hp], by simp [Ep.txView, hp], by simp,
       by simp [Ep.txView], by intro h; simp [Ep.txView] at h,
       by intro h; simp [Ep.txView] at h, by intro h; simp [Ep.txView] at h, by intro h; simp [Ep.txView] at h,
       by intro n it h; simp [Ep.txView] at h, rfl, by intro it h; simp [Ep.txView] at h,
       ⟨0, by simp [Ep.txView], by simp, by simp [Ep.txView], fun _ _ => rfl⟩,
-      by intro it s h; simp [Ep.txView] at h, by simp [Ep.txView], ?_, ?_⟩
+      by intro it s h; simp [Ep.txView] at h, by simp [Ep.txView], ?_, ?_, ?_⟩
     · simp [Ep.txView, legalRun, phaseOf, curL]
     · simp [Ep.txView, rxSpec, curD, doneD]
+    · refine ⟨fun p hp => by simp [Ep.txView] at hp, fun _ => ⟨rfl, ?_⟩, fun _ => rfl⟩
+      intro m hm
+      simp [Ep.txView] at hm
 
 theorem timerInv_started (cfg : Cfg) : TimerInv (started cfg) :=
   timerInv_step _ _ (timerInv_init cfg)
